@@ -266,9 +266,13 @@ func TestPropInput(t *testing.T) {
 			input = prefix + genCommands(t, rapid.IntRange(1, 6).Draw(t, "n"), cmdgen.Opts{})
 			if rapid.IntRange(0, 4).Draw(t, "biglit") == 3 {
 				// a string argument sent as a literal above the buffering limit
-				form := rapid.SampledFrom([]string{"{5000}", "{5000+}", "{4097+}", "{70000+}"}).Draw(t, "bigform")
+				form := rapid.SampledFrom([]string{"{5000}", "{5000+}", "{4097+}", "{70000+}", "{2147483648}", "{1099511627776+}", "{9223372036854775807}", "{9223372036854775807+}"}).Draw(t, "bigform")
 				n, _ := strconv.Atoi(strings.Trim(form, "{}+"))
-				input += "big LOGIN " + form + "\r\n" + strings.Repeat("A", n) + " pw\r\nafter NOOP\r\n"
+				if n > 70000 {
+					n = 100 // only the announcement matters for huge sizes
+				}
+				cmd := rapid.SampledFrom([]string{"LOGIN ", "SELECT ", "LIST \"\" ", "SEARCH SUBJECT ", "CREATE ", "STATUS "}).Draw(t, "bigcmd")
+				input += "big " + cmd + form + "\r\n" + strings.Repeat("A", n) + " pw\r\nafter NOOP\r\n"
 			}
 			if rapid.IntRange(0, 6).Draw(t, "bigappend") == 3 {
 				input += "ba APPEND INBOX " + rapid.SampledFrom([]string{"{104857601}", "{104857601+}", "{9223372036854775807+}"}).Draw(t, "baform") + "\r\nSubject: x\r\n\r\nbody\r\n"
